@@ -5,7 +5,8 @@
    State hypotheses.  [Wf hr c s] = the C01 invariant [Inv] (Proofs/C01Ops.v: live index with cached root "/",
    cleaned absolute unique names, tape and index in sync) together with [sizes_ok]: every row stores the size a
    replay of its record would store (established by every record the filesystem calls write; needed because a
-   metadata update re-derives the size from the PAX size record).  [closed (abs s)]: the live entries form a
+   metadata update re-derives the size from the PAX size record; a row without the record - empty, or indexed from a
+   foreign archive - gets it from the known size, [keep_size], hence the bound 10^40 in [size_ok]).  [closed (abs s)]: the live entries form a
    tree (every proper ancestor of a live entry is a live directory); needed where the implementation looks at
    direct children or at "everything with this prefix" while the reference looks at the subtree.
    Both are shown to be preserved by every call treated here ([Wf] in each theorem, [closed] in T02Closed.v).
@@ -111,7 +112,8 @@ Proof.
 Qed.
 
 (* ---------- Chmod / Chown / Chtimes *)
-Lemma ch_node patch f : (forall h, h_name (patch h) = h_name h /\ h_link (patch h) = h_link h /\ h_pax (patch h) = h_pax h) ->
+Lemma ch_node patch f : (forall h, h_name (patch h) = h_name h /\ h_link (patch h) = h_link h /\ h_pax (patch h) = h_pax h /\
+                                   h_size (patch h) = h_size h) ->
   (forall d rec blk, node_of (row_of_hdr (r_rec d) rec (r_blk d) blk
                         (with_size_name (meta_hdr (patch (hdr_of_row d))) (r_size d) (h_name (patch (hdr_of_row d)))))
                      = f (node_of d)) ->
@@ -131,15 +133,18 @@ Proof.
   destruct (find_rows (rows (db s)) n) as [d|] eqn:En; cbn [option_map].
   2:{ rewrite (stat_s_true hr s n HL). exists s. split; [reflexivity|]. apply same_state; assumption. }
   destruct (find_rows_some _ _ _ En) as (Hin & Hlive & Hrn).
-  destruct (Hpatch (hdr_of_row d)) as (P1 & P2 & P3).
+  destruct (Hpatch (hdr_of_row d)) as (P1 & P2 & P3 & P4).
   rewrite Forall_forall in Hrows. destruct (Hrows d Hin) as (Gd & Hk & Hu).
   assert (Hsd : size_ok d).
   { pose proof (wf_size hr c s HW) as K. unfold sizes_ok in K. rewrite Forall_forall in K. apply K. exact Hin. }
   set (h0 := patch (hdr_of_row d)) in *.
   assert (N0 : h_name h0 = n) by (rewrite P1; exact Hrn).
   assert (Hsz : hsize (meta_hdr h0) = Some (r_size d)).
-  { unfold hsize. rewrite meta_hdr_usize, P3. change (h_pax (hdr_of_row d)) with (r_pax d).
-    unfold size_ok in Hsd. destruct (pax_get K_usize (r_pax d)) as [v|]; [exact Hsd|]. rewrite Hsd. reflexivity. }
+  { unfold hsize. rewrite meta_hdr_usize, P3, P4. change (h_pax (hdr_of_row d)) with (r_pax d).
+    change (h_size (hdr_of_row d)) with (r_size d).
+    unfold size_ok in Hsd. destruct (pax_get K_usize (r_pax d)) as [v|]; [exact Hsd|].
+    destruct (0 <? r_size d) eqn:Ez; [apply undecimal_decimal_eq; exact Hsd|].
+    change (h_size (meta_hdr h0)) with 0. f_equal. lia. }
   destruct (update_meta_exact hr c HP Hrs s h0 d (r_size d) HI0 Hhb) as (s' & rec & blk & E & HI' & Hhb' & Edb).
   { rewrite N0. exact G. }
   { rewrite P2. exact Hk. }
